@@ -46,7 +46,44 @@ def try_open(path):
             return f"{type(e).__module__}.{type(e).__name__}: {str(e)[:80]} @ {where}"
 
 
+def zip_records(data):
+    """offsets of the structural records of a zip: [('eocd', off, 22)], [('cd', off, 46) ...], [('local', off, 30) ...]"""
+    e = data.rfind(b"PK\x05\x06")
+    cd_size, cd_off = struct.unpack_from("<II", data, e + 12)
+    recs = [("eocd", e, 22)]
+    pos = cd_off
+    while pos < cd_off + cd_size and data[pos:pos + 4] == b"PK\x01\x02":
+        nlen, xlen, clen = struct.unpack_from("<HHH", data, pos + 28)
+        recs.append(("cd", pos, 46))
+        recs.append(("local", struct.unpack_from("<I", data, pos + 42)[0], 30))
+        pos += 46 + nlen + xlen + clen
+    return recs
+
+
+def run_zipstruct(case):
+    """every single-bit flip of one structural record (end-of-central-directory, a central directory header, a local header)"""
+    members = base_members(case["base"])
+    data = zip_bytes(members, zipfile.ZIP_STORED if case.get("stored") else zipfile.ZIP_DEFLATED)
+    recs = [r for r in zip_records(data) if r[0] == case["region"]]
+    region, off, size = recs[case["entry"] % len(recs)]
+    n = 0
+    with tempfile.TemporaryDirectory() as td:
+        p = os.path.join(td, "d.numbers")
+        for b in range(size):
+            for k in range(8):
+                d2 = bytearray(data)
+                d2[off + b] ^= 1 << k
+                open(p, "wb").write(bytes(d2))
+                n += 1
+                err = try_open(p)
+                if err:
+                    return {"detail": f"{case}: bit {k} of byte +{b} of the {region} record at offset {off} flipped: escaped {err}", "class": "zip-structure"}
+    return {"ok": True, "count": n}
+
+
 def run_case(case):
+    if case["kind"] == "zipstruct":
+        return run_zipstruct(case)
     members = base_members(case["base"])
     kind = case["kind"]
     with tempfile.TemporaryDirectory() as td:
@@ -151,6 +188,12 @@ def main():
         cases += [{"base": b, "kind": "truncate", "frac": f} for f in (0.0, 0.0001, 0.999, 0.9999)]
         for i in range(a.flips):
             cases.append({"base": b, "kind": "flip", "seed": a.seed * 100000 + i, "nflips": 1 + i % 3, "stored": i % 2 == 0})
+        nrec = len(base_members(b))
+        entries = sorted({0, 1, nrec // 2, nrec - 1}) if a.flips <= 150 else range(nrec)
+        cases.append({"base": b, "kind": "zipstruct", "region": "eocd", "entry": 0})
+        for e_ in entries:
+            cases.append({"base": b, "kind": "zipstruct", "region": "cd", "entry": e_, "stored": e_ % 2 == 0})
+            cases.append({"base": b, "kind": "zipstruct", "region": "local", "entry": e_, "stored": e_ % 2 == 1})
         names = [n for n, _ in base_members(b)]
         iwas = [n for n in names if n.endswith(".iwa")]
         for n in iwas[:6] + [x for x in names if x.endswith(".plist")][:2]:
